@@ -387,12 +387,12 @@ def run(chk):
     expand_rules(chk, db)
 
     # ------------------------------------------------------------------ D5
-    chk.rule("C09-D5.eject", "GridGlobal: after a sample is parked (addNewNode) and after a missing tensor is registered (addTensor, which may find the tensor already complete), every path to the exit "
+    chk.rule("C09-D5.eject", "GridGlobal and GridFourier: after a sample is parked (addNewNode) and after a missing tensor is registered (addTensor, which may find the tensor already complete), every path to the exit "
                              "on which the tensor may be complete passes loadConstructedTensors; the single-sample and the batch overload agree")
     nd5 = 0
-    for f in db.fns("TasGrid::GridGlobal::loadConstructedPoint"):
+    for f in db.fns("TasGrid::GridGlobal::loadConstructedPoint") + db.fns("TasGrid::GridFourier::loadConstructedPoint"):
         chk.saw(f)
-        is_load = lambda x: (callee(x) or "").endswith("GridGlobal::loadConstructedTensors")
+        is_load = lambda x: (callee(x) or "").endswith(("GridGlobal::loadConstructedTensors", "GridFourier::loadConstructedTensors"))
         for c in f.calls(into_lambda=False):
             cal = callee(c) or ""
             if cal.endswith("DynamicConstructorDataGlobal::addTensor"):
@@ -414,7 +414,7 @@ def run(chk):
                             ok = True
                             how = "on the tensor_complete edge"
                 chk.ob("C09-D5.eject", f.key + f.sig, "addNewNode @%d: a completed tensor is loaded" % c.get("l", 0), ok, f.loc(c), how)
-    chk.floor("C09-D5.eject", nd5, 4, "parking / registration sites in GridGlobal::loadConstructedPoint")
+    chk.floor("C09-D5.eject", nd5, 8, "parking / registration sites in the tensor-based loadConstructedPoint overloads (Global, Fourier)")
 
     # ------------------------------------------------------------------ D8
     chk.rule("C09-D8.relatives", "every routine that decides connectivity by enumerating the immediate relatives of an index (single-sample admission, batch promotion of parked samples) "
